@@ -3,7 +3,7 @@
 use std::collections::HashSet;
 
 use crate::analysis::effects::{self, ExprClass};
-use crate::analysis::facts::ProgramFacts;
+use crate::analysis::facts::{LocalKind, ProgramFacts};
 use crate::analysis::ids::{FunctionId, LocalId, ScopeId, StmtId};
 use crate::analysis::opt::{OptimizationInputs, OptimizationPlan};
 use crate::analysis::{
@@ -1136,10 +1136,33 @@ impl<'ast, 'res> Resolver<'ast, 'res> {
         }
     }
 
+    /// A function is visible throughout its block, so it can run before the `make` of a
+    /// variable it captures has executed; reading that variable is then a runtime error.
+    /// Parameters and the function's own variables are always initialised when read.
+    fn read_may_precede_declaration(&self, var: &str) -> bool {
+        self.lookup_var_info(var).is_some_and(|(_, local)| {
+            let info = &self.facts.locals[local.0 as usize];
+            info.owner != self.current_owner && info.kind == LocalKind::Variable
+        })
+    }
+
+    fn classify_var_read(&self, var: &str) -> ExprClass {
+        if self.read_may_precede_declaration(var) {
+            ExprClass::PureMayTrap
+        } else {
+            ExprClass::PureNoTrap
+        }
+    }
+
     fn classify_expr(&self, expr: ExprRef<'ast>) -> ExprClass {
         match expr {
-            Expr::Number(..) | Expr::Bool(..) | Expr::Null(..) | Expr::Var(..) => {
-                ExprClass::PureNoTrap
+            Expr::Number(..) | Expr::Bool(..) | Expr::Null(..) => ExprClass::PureNoTrap,
+            Expr::Var(var, ..) => self.classify_var_read(var),
+            Expr::String { parts: StringParts::Interpolated(segments), .. } => {
+                segments.iter().fold(ExprClass::PureNoTrap, |class, segment| match segment {
+                    StringSegment::Variable(var) => class.join(self.classify_var_read(var)),
+                    _ => class,
+                })
             }
             Expr::String { .. } => ExprClass::PureNoTrap,
             Expr::Array { elements, .. } => {
